@@ -4,6 +4,7 @@ import FractopoModel.Generated.UnderlapValidator
 import FractopoModel.Generated.AreaValidator
 import FractopoModel.Generated.ValidationUtils
 import FractopoModel.Generated.ValidatorMethods
+import FractopoModel.Generated.SharpCorners
 /-!
 # Runs the REGENERATED `UnderlappingSnapValidator.validation_method` and `TargetAreaSnapValidator.validation_method`
 (translator validation, stream S10-generated).  Distances are exact and squared (thresholds and multipliers are passed squared);
@@ -81,6 +82,19 @@ def gstackval (a : Args) : Option String := do
     (fun _ near => along && !near.isEmpty) (fun _ c => tri.getD (cands.idxOf c) false) geom cands t m o
   some s!"ok={showBool r}"
 
+/-- `gsharp n= chordnan=0|1 nan=<0|1 per segment> avgok=<0|1 per segment> prevok=<0|1 per segment>`: the regenerated
+`SharpCornerValidator.validation_method` on a trace of `n` vertices (vertex = its index); a unit vector is the pair of vertex indices,
+the comparisons are scripted per segment (avg threshold 1 = against the chord, prev threshold 2 = against the previous segment) -/
+def gsharp (a : Args) : Option String := do
+  let n ← (a.get? "n") >>= parseNat?
+  let chordNan ← (a.get? "chordnan") >>= parseBool?
+  let bl := fun k => (((a.get? k).getD "").splitOn ",").filterMap parseBool?
+  let nan := bl "nan"; let avgok := bl "avgok"; let prevok := bl "prevok"
+  let r := Gen.sharp_corner_validation (fun (_ : Unit) => List.range n) 0 (fun (i j : Nat) => (i, j))
+    (fun (v : Nat × Nat) => if v.2 == v.1 + 1 then nan.getD v.1 false else chordNan)
+    (fun (_ v2 : Nat × Nat) (thr : Rat) => if thr == 1 then avgok.getD v2.1 true else prevok.getD (v2.1 + 1) true) () 1 2
+  some s!"ok={showBool r}"
+
 def dispatch (line : String) : String :=
   let toks := (line.trimAscii.toString.splitOn " ").filter (· ≠ "")
   match toks with
@@ -94,6 +108,7 @@ def dispatch (line : String) : String :=
       | "gisul" => gisul a
       | "gtri" => gtri a
       | "gstackval" => gstackval a
+      | "gsharp" => gsharp a
       | _ => some s!"error=unknown-command:{cmd}"
     r.getD "error=bad-arguments"
 
